@@ -10,6 +10,7 @@ from ..frontend import AnalysisBroken, fmt_loc
 from ..e1explore import Concrete
 from ..e1 import END, NULL, SAFE, Imprecise, Finding
 
+RETRY_INLINED = True
 LEVEL = 'other'
 
 URI = ('G', 'URI')
